@@ -49,6 +49,25 @@ pub struct Monitors {
     pub rr_sig: Vec<(SimId, bool)>,
     /// targets of the probe rounds since the set of known members last changed
     pub rr_window: Vec<SimId>,
+    // C12 (probe rounds)
+    pub round: Option<Round>,
+}
+
+/// The probe round in progress, as an observer reconstructs it from the calls alone.
+#[derive(Clone, Debug)]
+pub struct Round {
+    pub target: SimId,
+    /// incarnation of the target's record when the round started
+    pub inc: u16,
+    pub number: u8,
+    /// members asked to probe indirectly in this round
+    pub asked: Vec<SimId>,
+    pub evidence: bool,
+    /// the indirect-probe timer of this round has fired (once)
+    pub indirect_done: bool,
+    /// something happened that only an adversarial runtime produces (indirect timer twice, another
+    /// round's indirect timer with the current token): the round is not judged
+    pub dirty: bool,
 }
 
 fn v(out: &mut Vec<Violation>, property: &'static str, tag: &str, at: u64, detail: String) {
@@ -135,6 +154,7 @@ impl Monitors {
             model_enabled: true,
             rr_sig: Vec::new(),
             rr_window: Vec::new(),
+            round: None,
         }
     }
 
@@ -184,6 +204,7 @@ impl Monitors {
         self.check_suspicion_timeout(pre, rec, post, at, out, stats);
         self.check_round_robin(pre, rec, post, at, out, stats);
         self.check_rejections(pre, rec, post, at, out, stats);
+        self.check_probe_rounds(pre, rec, post, &told, at, out, stats);
         self.check_notifications_and_epochs(pre, rec, post, &told, delivered_genuine, at, out, stats);
         self.check_table(pre, rec, post, &told, at, out);
         self.check_incarnation(pre, rec, post, &told, at, out, stats);
@@ -565,6 +586,123 @@ impl Monitors {
         }
         if n_defunct > 0 {
             stats.add("defuncts", n_defunct);
+        }
+    }
+
+    // ---- C12 (probe rounds) -------------------------------------------------------------------------------
+    /// A probe round ends without suspicion only on genuine evidence (Ack from the target with the
+    /// round's number, or ForwardedAck with it from a member asked in this round, in a datagram that
+    /// was processed); otherwise - unless the round was aborted - the target, if still the same
+    /// active record at the same incarnation, becomes Suspect and exactly one timeout is scheduled.
+    /// Indirect requests only without evidence and while the target is active, to at most
+    /// num_indirect_probes distinct active members, never the target.
+    fn check_probe_rounds(&mut self, pre: &Obs, rec: &CallRec, post: &Obs, told: &Told, at: u64, out: &mut Vec<Violation>, stats: &mut Stats) {
+        let codec = self.codec;
+        let token_now = pre.snap.timer_token;
+        match &rec.input {
+            Input::Timer(Timer::ProbeRandomMember(token)) if *token == token_now && pre.connected() => {
+                let result_ok = rec.result == Res::Ok;
+                if let Some(r) = self.round.take() {
+                    let judged = result_ok && !r.dirty && (r.indirect_done || r.evidence);
+                    if judged {
+                        let timeouts = rec
+                            .scheds()
+                            .filter(|(t, _)| matches!(t, Timer::ChangeSuspectToDown { member_id, .. } if *member_id == r.target))
+                            .count();
+                        if r.evidence {
+                            stats.inc("c12_rounds_judged_with_evidence");
+                            if timeouts != 0 || pre.slot(r.target.addr) != post.slot(r.target.addr) {
+                                v(out, "C12", "C12/suspected-despite-evidence", at, format!("round {} on {} had genuine evidence, yet {} timeout(s) scheduled, record {:?} -> {:?}", r.number, r.target, timeouts, pre.slot(r.target.addr), post.slot(r.target.addr)));
+                            }
+                        } else if pre.slot(r.target.addr).is_some_and(|m| *m.id() == r.target && m.state() != State::Down && m.incarnation() == r.inc) {
+                            stats.inc("c12_rounds_judged_without_evidence");
+                            let suspect = post.slot(r.target.addr).is_some_and(|m| *m.id() == r.target && m.state() == State::Suspect && m.incarnation() == r.inc);
+                            let exact = rec
+                                .scheds()
+                                .filter(|(t, after)| matches!(t, Timer::ChangeSuspectToDown { member_id, incarnation, token } if *member_id == r.target && *incarnation == r.inc && *token == token_now) && **after == self.cfg.suspect_to_down_after)
+                                .count();
+                            if !suspect {
+                                v(out, "C12", "C12/no-suspicion-without-evidence", at, format!("round {} on {}@{} ended without evidence; record after: {:?}", r.number, r.target, r.inc, post.slot(r.target.addr)));
+                            }
+                            if exact != 1 || timeouts != 1 {
+                                v(out, "C12", "C12/suspicion-timeout-count", at, format!("round {} on {}@{} ended without evidence; {} timeout(s) for the target scheduled, {} with the right incarnation, token and delay", r.number, r.target, r.inc, timeouts, exact));
+                            }
+                        }
+                    }
+                }
+                // the round that starts now
+                if matches!(rec.result, Res::Ok | Res::Err(ErrKind::IncompleteProbeCycle)) && post.connected() && post.id == pre.id {
+                    let ping = rec.sends().find_map(|(to, d)| match parse_datagram(codec, d).ok()?.header.message {
+                        Message::Ping(n) => Some((*to, n)),
+                        _ => None,
+                    });
+                    if let Some((target, number)) = ping {
+                        if let Some(m) = post.slot(target.addr).filter(|m| *m.id() == target) {
+                            self.round = Some(Round { target, inc: m.incarnation(), number, asked: Vec::new(), evidence: false, indirect_done: false, dirty: false });
+                        }
+                    }
+                }
+            }
+            Input::Timer(Timer::SendIndirectProbe { probed_id, token }) if *token == token_now => {
+                let reqs: Vec<SimId> = rec
+                    .sends()
+                    .filter(|(_, d)| parse_datagram(codec, d).is_ok_and(|p| matches!(p.header.message, Message::PingReq { .. })))
+                    .map(|(to, _)| *to)
+                    .collect();
+                match self.round.as_mut() {
+                    Some(r) if r.target == *probed_id => {
+                        if r.indirect_done {
+                            r.dirty = true;
+                        }
+                        r.indirect_done = true;
+                        if !r.dirty && rec.result == Res::Ok {
+                            stats.inc("c12_indirect_stages_monitored");
+                            let target_active = pre.active.iter().any(|m| *m.id() == r.target);
+                            if !reqs.is_empty() && (r.evidence || !target_active) {
+                                v(out, "C12", "C12/indirect-requests-unwarranted", at, format!("{} PingReq sent although evidence: {} / target active: {}", reqs.len(), r.evidence, target_active));
+                            }
+                            let mut uniq = reqs.clone();
+                            uniq.sort();
+                            uniq.dedup();
+                            if uniq.len() != reqs.len() || reqs.len() > self.cfg.num_indirect_probes.get() || reqs.contains(&r.target) || reqs.iter().any(|h| !pre.active.iter().any(|m| m.id() == h)) {
+                                v(out, "C12", "C12/indirect-fanout", at, format!("PingReq destinations {:?} for target {} (num_indirect_probes {}, active {:?})", reqs, r.target, self.cfg.num_indirect_probes, pre.active.iter().map(|m| *m.id()).collect::<Vec<_>>()));
+                            }
+                        }
+                        r.asked.extend(reqs);
+                    }
+                    Some(r) => {
+                        // another round's timer carrying the current token marks the stage of this round too
+                        r.dirty = true;
+                    }
+                    None => {}
+                }
+            }
+            Input::Data(d) => {
+                // (header and updates only: a datagram whose custom-broadcast section is damaged is still
+                // processed up to and including its message; the error is reported at the end)
+                if let (Some(r), Some((h, _))) = (self.round.as_mut(), crate::models::accepted_view(d, pre.id, &self.cfg, codec)) {
+                    let processed = matches!(rec.result, Res::Ok | Res::Err(ErrKind::MalformedPacket) | Res::Err(ErrKind::CustomBroadcast))
+                        // the sender counts as active unless the table held it Down or superseded when the datagram
+                        // arrived (what the same datagram's updates say about it afterwards does not matter)
+                        && !pre.slot(h.src.addr).is_some_and(|m| (*m.id() == h.src && m.state() == State::Down) || m.id().win_conflict(&h.src));
+                    if processed {
+                        match h.message {
+                            Message::Ack(n) if h.src == r.target && n == r.number => r.evidence = true,
+                            Message::ForwardedAck { origin, probe_number } if origin != pre.id && probe_number == r.number && r.asked.contains(&h.src) => r.evidence = true,
+                            _ => {}
+                        }
+                    }
+                }
+            }
+            _ => {}
+        }
+        // aborted: idle, defunct, identity change (also whatever leaves the instance disconnected)
+        let aborted = post.id != pre.id
+            || !post.connected()
+            || rec.notes().any(|n| matches!(n, OwnedNotification::Idle | OwnedNotification::Defunct | OwnedNotification::Rejoin(_)))
+            || matches!((&rec.input, rec.result), (Input::ChangeIdentity(_), _) | (Input::ReuseDown, Res::Ok));
+        if aborted {
+            self.round = None;
         }
     }
 
